@@ -6,6 +6,8 @@ const GrouperAvailable = false
 
 type GroupStats struct{ GroupCount int }
 
-func GroupBy(ix []uint32, cmp []Comparable) ([][]uint32, GroupStats) { panic("grouper seam unavailable") }
+func GroupBy(ix []uint32, cmp []Comparable) ([][]uint32, GroupStats) {
+	panic("grouper seam unavailable")
+}
 
 func Distinct(ix []uint32, cmp []Comparable) []uint32 { panic("grouper seam unavailable") }
